@@ -96,7 +96,7 @@ type Path struct {
 	mapOrderNondet bool
 	pinned         []string // pinned nondet values (concrete replay mode)
 	pinPos         int
-	seeded         bool   // pinned values come from the shared PRNG
+	seeded         bool // pinned values come from the shared PRNG
 	rng            uint64
 
 	clockSec, clockNsec *Term // last clock reading (monotone clock model)
@@ -381,7 +381,8 @@ func (p *Path) recordViolation(site, msg string, stack []string) {
 			v.Msg += " [model unavailable: " + err.Error() + "]"
 		}
 	} else {
-		v.Msg += " [model unavailable]"
+		// the assertion query said sat but the re-check for the model did not: not a trustworthy verdict
+		p.abort(abortSolver, "model re-check for %s did not return sat", site)
 	}
 	for i, n := range p.nondets {
 		sv := fmtModelValue(vals[i])
